@@ -20,7 +20,7 @@ def main():
     assert rc == 0, out
     os.remove(os.path.join(wt, "rust-toolchain.toml"))
     dst = os.path.join(ROOT, "seeded", name); os.makedirs(dst, exist_ok=True)
-    for f in os.listdir(src):
+    for f in (os.listdir(src) if os.path.abspath(src) != os.path.abspath(dst) else []):
         if f.endswith(".log"): continue
         s = os.path.join(src, f)
         if os.path.isdir(s): shutil.copytree(s, os.path.join(dst, f), dirs_exist_ok=True, ignore=shutil.ignore_patterns("target"))
@@ -28,7 +28,7 @@ def main():
     meta = json.load(open(os.path.join(src, "meta.json")))
     patch = os.path.join(dst, "patch.diff")
     crates = sorted(set(re.findall(r"^\+\+\+ b/(crux_\w+)/", open(patch).read(), re.M)))
-    rec = {"property": prop, "breaks": meta.get("summary"), "needs_to_manifest": meta.get("needs_to_manifest"), "crates": crates, "ran": []}
+    rec = {"property": prop, "breaks": meta.get("summary") or meta.get("breaks"), "needs_to_manifest": meta.get("needs_to_manifest"), "crates": crates, "ran": []}
     tdir = {"CARGO_TARGET_DIR": wt + "/target"}
     def demo(tag):
         m = re.search(r"-p (crux_\w+)", meta.get("demo_cmd", "")); crate = m.group(1) if m else crates[0]
@@ -70,7 +70,9 @@ def main():
         rec["confirmed"] = bool(ok_confirm and p0 and not f0 and f1)
     else:
         rc, out = sh("git apply %s" % patch, cwd=wt); assert rc == 0, out
-        rec["confirmed"] = "skipped"
+        prev = os.path.join(dst, "meta.json")
+        try: rec["confirmed"] = json.load(open(prev)).get("confirmed", "skipped") if "ran" in json.load(open(prev)) else "skipped"
+        except Exception: rec["confirmed"] = "skipped"
     rec["checks"] = {}
     for c in checks:
         t = time.time()
